@@ -145,6 +145,8 @@ def tmo_nodes(wf):
     return out
 
 
+# properties that speak about interleavings of client actions with the scheduler: checked on the held-scheduler corpus too
+HELD = {'C01', 'C02', 'C03', 'C04', 'C05', 'C06', 'C08', 'C16'}
 # properties stated against a reference interpretation of the model: a trace that differs from the engine model's is the failure
 REFERENCE = {'C04', 'C06', 'C07', 'C16'}
 
@@ -231,6 +233,24 @@ def run(prop, tier, seed):
         res = engine.build(tier, seed)
     agree, dis, cases, m, i = engine.compare(res, kinds | {'BUILD-FAILED', 'CASE-ERROR', 'GONE', 'OUT-OF-FUEL', 'START-FAILED', 'PANIC', 'HUNG'}, strip_site)
     vi = run_oracle(res['cases'], res['impl'])
+    held_stats = None
+    if prop in HELD:
+        # the same generator with four actions in ten issued while the scheduler is held (tasks the action scheduled are
+        # still queued when the next operation arrives; one in four of those actions is repeated at once, identically):
+        # interleavings of client actions and scheduler steps at queue granularity, which the theorems quantify over
+        res2 = engine.build(tier, seed, variant='-hold', n=(200 if tier == 'quick' else 3000), gen_args=('hold',), idtag='h', with_corpus=False)
+        agree2, dis2, cases2, m2, i2 = engine.compare(res2, kinds | {'BUILD-FAILED', 'CASE-ERROR', 'GONE', 'OUT-OF-FUEL', 'START-FAILED', 'PANIC', 'HUNG'}, strip_site)
+        agree += agree2
+        dis = dis + dis2
+        cases = dict(cases, **cases2)
+        m = dict(m, **m2)
+        i = dict(i, **i2)
+        vi = dict(vi, **run_oracle(res2['cases'], res2['impl']))
+        held_stats = {'cases': res2['ncases'], 'held_actions': res2['distribution'].get('held', 0), 'repeated_actions': res2['distribution'].get('repeated', 0),
+                      'agree': agree2, 'harness_errors': res2['harness_errors']}
+        if res2['harness_errors']:
+            res = dict(res, harness_errors=list(res['harness_errors']) + list(res2['harness_errors']))
+        res = dict(res, ncases=res['ncases'] + res2['ncases'])
     violations = []
     nontrivial = 0
     for cid, c in cases.items():
@@ -277,6 +297,8 @@ def run(prop, tier, seed):
            'traces_validated_against_impl': agree, 'disagreements': len(dis),
            'input_distribution': res['distribution'], 'corpus_cases': res['ncorpus'],
            'samples': [json.loads(open(res['cases']).readline())]}
+    if held_stats:
+        cov['held_scheduler_corpus'] = held_stats
     return {'cov': cov, 'violations': violations, 'broken': broken, 'disagreements': disagreements, 'reference': prop in REFERENCE,
             'assumptions': ["one engine operation (scheduler step, client action, tick) is atomic; overlap of exec and update on different threads is not modelled",
                             "deterministic tier: current_thread runtime, FIFO queue below 100 pending signals",
